@@ -40,6 +40,20 @@ def config_skip(quick):
     )
 
 
+FLAG_SETS = [["date"], ["attrsR", "micro"], ["caller", "lineno"], ["time", "micro", "localTime", "lineno", "caller", "attrs", "privacypath", "privacyrx"],
+             [], ["noInterrupt", "date"]]
+
+
+def config_flags(quick):
+    """Beyond the listed properties: the package-level flag and level utilities (SetFlags/AddFlags/RemoveFlags/ResetFlags,
+    SaveFlagsAndMod + its restore functions, ResetLevel/Reset/SaveLevelAndSet + restore)."""
+    return dict(
+        max_loggers=1, init_level=5, names=[], bool_lists=BOOL_LISTS, layouts=[""], opt_lists=[[]],
+        setter_args={"Level": [(2, 0)] if quick else [(2, 0), (5, 0)]}, acts=["Flags", "PkgLevel"], probe_sevs=[4], max_list=1,
+        flag_sets=FLAG_SETS[:2] if quick else FLAG_SETS[:3], max_saved=1,
+    )
+
+
 def big_config(quick):
     """Checked exhaustively by TLC only (too large to replay transition by transition)."""
     c = config(True)
@@ -67,7 +81,8 @@ def rand_config():
         max_loggers=3, init_level=5, names=["a", "b", "c"], bool_lists=BOOL_LISTS, layouts=["", "15:04:05"],
         opt_lists=[[], [opt("Level", 2)], [opt("JSONMode", 1), opt("Attrs", 2, 7)], [opt("Writer", 1)],
                    [opt("ColorMode", 3), opt("Level", 5), opt("AddWriter", 2)], [opt("ErrorWriter", 3), opt("UTCMode", 1)]],
-        setter_args=sa, acts=["Set", "With", "New", "NewDetached", "PkgSetLevel", "SetDefault"], probe_sevs=[4, 2],
+        setter_args=sa, acts=["Set", "With", "New", "NewDetached", "PkgSetLevel", "SetDefault", "Flags", "PkgLevel"], probe_sevs=[4, 2],
+        flag_sets=FLAG_SETS,
     )
 
 
@@ -85,6 +100,8 @@ def run(ctx, replay):
                      rand_loggers=10 if ctx.quick() else 20, rand_cfg=rand_config(), tag="tree")
     corelib.run_core(ctx, config_attrs(ctx.quick()), invariants=["TreeOK"], properties=["Isolation"], obs=["cfg", "attrs"],
                      rand_count=0, rand_depth=0, rand_loggers=3, tag="attrs")
+    corelib.run_core(ctx, config_flags(ctx.quick()), invariants=["FlagsOK", "TreeOK"], properties=["RestoreExact", "DbgSticky"],
+                     obs=["cfg"], rand_count=0, rand_depth=0, rand_loggers=2, tag="flags")
     corelib.run_core(ctx, config_skip(ctx.quick()), invariants=["TreeOK"], properties=["Isolation", "TreeMonotone"],
                      obs=["cfg", "tree"], rand_count=0, rand_depth=0, rand_loggers=4, tag="skip")
     ctx.assumptions += ["generated (anonymous) logger names never collide (26^-6 per pair)",
